@@ -351,7 +351,59 @@ func ruleC12(c *Ctx, r *Report) {
 				missing = append(missing, k)
 			}
 		}
-		r.Check(len(missing) == 0 && loop != nil, "C12-R3", nsFn.Name()+":verb-list", c.Pos(nsFn.Pos()), fmt.Sprintf("%d namespace-bearing command keys", len(keys)), fmt.Sprintf("namespace-bearing command keys no longer rewritten: %v", missing))
+		// the written-out form (the list is a package-level table whose loop was unrolled, or the
+		// rewrites were written one by one): Set(cmd, "K", HashName(cmd["K"].(string))) under
+		// tests of cmd["K"] alone
+		unrolledOK := false
+		if loop == nil {
+			unrolledOK = true
+			allInstrs(nsFn, func(i ssa.Instruction) {
+				call, ok := i.(*ssa.Call)
+				if !ok || calleeKey(&call.Call) != omMethod("Set") || peel(call.Call.Args[0]) != ssa.Value(nsFn.Params[0]) {
+					return
+				}
+				k, isC := constString(call.Call.Args[1])
+				hc, isH := peel(call.Call.Args[2]).(*ssa.Call)
+				if !isC || !isH || hc.Call.StaticCallee() != hn {
+					unrolledOK = false
+					return
+				}
+				rv, kv, okG := getKeyValueOf(hc.Call.Args[0])
+				ks, isKC := constString(kv)
+				if !okG || peel(rv) != ssa.Value(nsFn.Params[0]) || !isKC || ks != k {
+					unrolledOK = false
+					return
+				}
+				for _, a := range p.atomsAt(call.Block()) {
+					subj := ""
+					switch a.Kind {
+					case "ok":
+						if gc, isCall := a.X.(*ssa.Call); isCall && len(gc.Call.Args) > 1 {
+							subj, _ = constString(gc.Call.Args[1])
+						}
+					case "typeis", "nil":
+						subj, _ = getKeyOfValue(a.X)
+					default:
+						unrolledOK = false
+					}
+					if subj != k {
+						unrolledOK = false // depends on another member: some lines skip this key
+					}
+				}
+				keys = append(keys, k)
+				have[k] = true
+			})
+			missing = nil
+			for _, k := range required {
+				if !have[k] {
+					missing = append(missing, k)
+				}
+			}
+			if len(keys) == 0 {
+				unrolledOK = false
+			}
+		}
+		r.Check(len(missing) == 0 && (loop != nil || unrolledOK), "C12-R3", nsFn.Name()+":verb-list", c.Pos(nsFn.Pos()), fmt.Sprintf("%d namespace-bearing command keys", len(keys)), fmt.Sprintf("namespace-bearing command keys no longer rewritten: %v", missing))
 		okStore := false
 		if loop != nil {
 			allInstrs(nsFn, func(i ssa.Instruction) {
@@ -381,6 +433,9 @@ func ruleC12(c *Ctx, r *Report) {
 					okStore = true
 				}
 			})
+		}
+		if loop == nil && unrolledOK {
+			okStore = true
 		}
 		r.Check(okStore, "C12-R3", nsFn.Name()+":store-shape", c.Pos(nsFn.Pos()), "for every listed key: Set(cmd, key, HashName(cmd[key].(string))), no early exit", "the rewriter does not store HashName of the string read from the same key for every listed key")
 	}
